@@ -11,6 +11,8 @@ VERIF = os.path.dirname(HERE)
 REPO = "/repo"
 OWN = "--own" in sys.argv   # fast regression mode: only the check of the change's own property and the checks recorded as catching it
 if OWN: sys.argv.remove("--own")
+ONLYOWN = "--only-own" in sys.argv   # fastest mode: only the check of the change's own property
+if ONLYOWN: sys.argv.remove("--only-own"); OWN = True
 LANE = None                 # --lane i/n: this process handles every n-th change (own worktree, own partial result file seeded/.matrix_lane_i.json; merge with --merge)
 if "--lane" in sys.argv:
     k = sys.argv.index("--lane"); LANE = tuple(int(x) for x in sys.argv[k + 1].split("/")); del sys.argv[k:k + 2]
@@ -48,7 +50,7 @@ try:
             ids = [n.split("_")[0]]
             try:
                 meta = json.load(open(os.path.join(VERIF, "seeded", n, "meta.json")))
-                ids += [c for c in meta.get("confirmed", {}).get("caught_by_quick_checks", []) if c not in ids]
+                if not ONLYOWN: ids += [c for c in meta.get("confirmed", {}).get("caught_by_quick_checks", []) if c not in ids]
             except Exception:
                 pass
         r = subprocess.run([sys.executable, os.path.join(HERE, "eval_mutant.py"), wt] + ids, capture_output=True, text=True)
